@@ -932,6 +932,7 @@ def _advance_head_front(state: State, heads: List[FlowHead]) -> List[FlowHead]:
 
         if flow_state.status == FlowStatus.WAITING:
             flow_state.status = FlowStatus.STARTING
+        flow_is_starting = flow_state.status == FlowStatus.STARTING
 
         flow_finished = False
         flow_aborted = False
@@ -1010,6 +1011,10 @@ def _advance_head_front(state: State, heads: List[FlowHead]) -> List[FlowHead]:
             _finish_flow(state, flow_state, head.matching_scores)
             log.debug("Flow finished: %s with last element", head.flow_state_uid)
         elif flow_aborted:
+            if flow_is_starting and flow_state.activated > 0:
+                # Avoid restarting an activated flow that failed before it was started
+                # since this would end in an infinite loop
+                flow_state.new_instance_started = True
             _abort_flow(state, flow_state, head.matching_scores)
             log.debug("Flow aborted: %s by 'abort' statement", head.flow_state_uid)
 
